@@ -247,6 +247,16 @@ def run_case(acc, cseed, tmpdir):
     acc.evaluations += 1
     if code != 0 or json.load(open(out))["signatures"] != doc["signatures"] + [extra]:
         bad("manual-signature-not-appended", code=code)
+    # the very same signature once more (two authorizers' files merged by hand, a command
+    # repeated): the file is a list, in order, repetitions included
+    ndup = rng.choice([0, 1, 1, 2])
+    for _ in range(ndup):
+        code, so = run_main(signapp.main, ["signapp.py", "manual", "-o", out, "-g", extra])
+        acc.evaluations += 1
+    if ndup:
+        acc.count("repeated_signatures_in_file")
+        if json.load(open(out))["signatures"] != doc["signatures"] + [extra] * (1 + ndup):
+            bad("repeated-signature-not-kept", code=code, ndup=ndup)
     before = open(out).read()
     for badsig in ["zz", "", "30", extra[:-2], "31" + extra[2:], extra + "00" * 0 + "zz"]:
         acc.count("refusals_checked")
